@@ -17,9 +17,17 @@ def keyfn(case, res, m):
 
 def run(chk):
     chk.audit(PROPS)
-    n = 1400 if chk.tier == "quick" else 50000
+    n = 1000 if chk.tier == "quick" else 50000
+    biases = ['markers', 'markers', '', 'stop']
+    # can the token queues be observed (private names)?  If not, every trace is validated with the token
+    # moves inferred, which is much more expensive: fewer and smaller cases then.
+    fine_ok = chk.run_cases('scen_iq', [CORPUS[0]])[0][1].get('fine')
+    if not fine_ok:
+        n = 150 if chk.tier == "quick" else 3000
+        biases = ['small']
+        chk.notes.append('token queues not observable (private names changed?): coarse observation, reduced case budget')
     results = core.e1_flow(chk, 'scen_iq', 'iterq', {'C17'},
-                 lambda rng: scen_iq.gen_case(rng, chk.tier, rng.choice(['markers', 'markers', '', 'stop'])),
+                 lambda rng: scen_iq.gen_case(rng, chk.tier, rng.choice(biases)),
                  n, keyfn=keyfn, corpus=CORPUS)
     chk.add_obligation('correspondence', 'trace refinement of the real IterableQueue runs by Model/IterQueue.lean (drv iterq, E1)',
                        not chk.corr_breaks, traces=chk.cov['traces_validated_against_impl'])
